@@ -116,27 +116,29 @@ def header_parser_rule(ctx, rule):
 
 
 def expect_rule(ctx, rule):
+    """unsupported Expect values are rejected while the request is built, before any body byte is read (framing table)"""
+    import framing_rules as FRM
     facts = ctx.facts
-    nr = facts.fn("request::new_request")
-    ctx.touch(nr)
-    exp = [(bb, t) for bb, t in nr.calls() if call_matches(t, r"eq_ignore_ascii_case$") and "100-continue" in arg_consts(nr, t)]
-    ctx.ob(rule, "%s|expect-literal" % nr.id, "Expect is compared case-insensitively with `100-continue`", len(exp) == 1, "%s:%d" % (nr.file, nr.line))
-    errs = [bb for bb, i, s in nr.assigns() if s["rhs"]["rv"] == "agg" and s["rhs"].get("variant") == "ExpectationFailed"]
-    ctx.ob(rule, "%s|expectation-failed-produced" % nr.id, "an unsupported Expect yields ExpectationFailed", bool(errs), "%s:%d" % (nr.file, nr.line))
-    reads = set(nr.call_blocks(lambda t: t.get("callee") in ("std::io::Read::read", "std::io::Read::read_exact", "std::io::Read::read_to_end")))
-    if exp and errs:
-        bb, t = exp[0]
-        bs = bool_switch(nr, t["target"])
-        ctx.require(bs is not None, "%s: eq_ignore_ascii_case result is not branched on" % rule)
-        f_reach = nr.reach([bs[2]], unwind=False)
-        ok = any(e in f_reach for e in errs) and not (nr.reach([bs[2]], blocked=set(errs), unwind=False) & {b for b in nr.live_blocks() if nr.term(b)["t"] == "return"})
-        ctx.ob(rule, "%s|other-value-rejected" % nr.id, "any Expect value other than 100-continue leads to the ExpectationFailed return", ok, nr.loc(bb))
-        dom = nr.dominators(False)
-        cands = [b for b in dom[bb] if switch_on_discr(nr, b) and switch_on_discr(nr, b)[0].get("adt") == "std::option::Option"]
-        ctx.require(cands, "%s: no Option match dominates the Expect comparison" % rule)
-        dec = max(cands, key=lambda b: len(dom[b]))
-        before_body = all(nr.dominates(dec, r, unwind=False) for r in reads)
-        ctx.ob(rule, "%s|decided-before-body" % nr.id, "the expectation is decided before any body byte is read", before_body, nr.loc(dec))
-        for e in errs:
-            r = nr.reach([e], unwind=False)
-            ctx.ob(rule, "%s|rejection-reads-nothing" % nr.id, "the rejection path reads no body byte", not (r & reads), nr.loc(e))
+    FM = FRM.fmodel(facts)
+    nr0 = FM.nr0
+    where = "%s:%d" % (nr0.file, nr0.line)
+    rows = [r for r in FM.rows if r["end"] == "return"]
+    seen = any(a[0][0] == "expect100" for r in rows for a in r["atoms"])
+    ctx.ob(rule, "%s|expect-literal" % nr0.id, "Expect is compared case-insensitively with `100-continue`", seen, where)
+    bad, n = [], 0
+    errs = set()
+    for r in rows:
+        ats = dict((a, v) for a, v in r["atoms"])
+        present = any(a[:2] == ("present", "Expect") and v for a, v in r["atoms"])
+        if present and ats.get(("expect100",)) is False:
+            n += 1
+            if r["kind"] != "err":
+                bad.append("accepted: %s" % Q._ret_str(r["path"])[:60])
+            elif r["reads"] > 0:
+                bad.append("body bytes are read before the expectation is rejected")
+            else:
+                e = r["err"]
+                errs.add(e[2] if e and e[0] == "agg" else "?")
+    ctx.ob(rule, "%s|other-value-rejected" % nr0.id, "any Expect value other than 100-continue makes new_request return an error, before any body byte is read", n > 0 and not bad, where, None if not bad else str(bad[:3]))
+    # all CL validation errors come first (400 before 417) -- and the expectation error is one dedicated kind
+    ctx.ob(rule, "%s|expectation-failed-produced" % nr0.id, "an unsupported Expect yields one dedicated error kind (the one the connection parser answers with 417)", len(errs) == 1 and "?" not in errs, where, str(sorted(errs)))
